@@ -21,6 +21,7 @@ var ptab = func() (t [256][256]byte) {
 	}
 	return
 }()
+
 const gsent = 0x7E
 
 // guarded buffers: n buffers of `size` bytes at a seeded misalignment, each between two guard zones
